@@ -88,10 +88,11 @@ def specs(ctx):
     # starved line searches on non-convex objectives in boxes: rejected updates followed by failed searches and memory
     # resets, then accepted steps (every state reported by the callback is judged)
     for i in range(ctx.pick(400, 4000)):
-        out.append({"family": ["rosenbrock", "qpcos", "osc", "styblinski_tang", "rastrigin", "griewank"][i % 6], "n": int(rng.integers(2, 6)),
+        out.append({"family": ["cosmix", "qpcos", "cosmix", "osc", "cosmix", "rastrigin"][i % 6], "n": int(rng.integers(2, 6)),
                     "pseed": int(rng.integers(1 << 30)), "jac": "callable", "cb": "never",
                     "box_kinds": ["box", "box", "lo", "up", "free"], "start": ["interior", "face"][i % 2],
-                    "kwargs": {"maxcor": int(rng.choice([1, 2, 3, 5])), "ftol": 0.0, "maxiter": int(rng.integers(8, 30)),
+                    "box_spread": 4.0,
+                    "kwargs": {"maxcor": int(rng.choice([2, 3, 5])), "ftol": 0.0, "maxiter": int(rng.integers(15, 40)),
                                "maxfun": 300, "maxls": int(rng.choice([1, 2, 3]))},
                     "gtol": ["float", 1e-8]})
     return out
